@@ -49,11 +49,9 @@ fn opt_pairs<T>(f: &FloatFmt<T>, thorough: bool) -> Vec<OptPair> {
                 continue;
             }
             for (si, sp) in specials.iter().enumerate() {
-                // letters of the special strings must not be digits of the radix (else they are numbers)
-                let letters_ok = [sp.0, sp.1, sp.2].iter().flatten().all(|w| w.iter().all(|&c| !is_digit(c, f.radix)));
-                if !letters_ok {
-                    continue;
-                }
+                // NOTE: special strings whose letters are digits of the radix are kept: a word made
+                // only of digits gets its own violation key below (known finding), the others must
+                // round-trip like any other special string.
                 for trim in [false, true] {
                     for &(nb, pb) in &breaks {
                         if !thorough && (si > 1 || trim) && (pt != b'.' || nb.is_some()) {
@@ -166,7 +164,7 @@ fn run_floats<T: Flt>(rep: &Report, cli: &Cli, replay: Option<(&str, usize, u64)
                 fam.states += 1;
                 fam.cases += 1;
                 fam.calls += 2;
-                let key = format!("{}|{}|{}|{:#x}", T::NAME, f.name, oi, bits);
+                let mut key = format!("{}|{}|{}|{:#x}", T::NAME, f.name, oi, bits);
                 let w = f.write;
                 let out = match guarded(|| {
                     let n = w(v, &mut buf[..], &op.w);
@@ -181,6 +179,13 @@ fn run_floats<T: Flt>(rep: &Report, cli: &Cli, replay: Option<(&str, usize, u64)
                 if fam.want_sample() {
                     rep.sample(format!("{} [{}] {} {:#x} -> {:?}", fam.name, f.name, op.name, bits, show_bytes(&out)));
                 }
+                if is_nan || is_inf {
+                    let word: &[u8] = if matches!(out.first(), Some(b'-') | Some(b'+')) { &out[1..] } else { &out[..] };
+                    if !word.is_empty() && word.iter().all(|&c| is_digit(c, f.radix)) {
+                        // the written special string is itself a numeral of the radix
+                        key = format!("{}|{}|numeral-special|{}:{:#x}", T::NAME, f.name, oi, bits);
+                    }
+                }
                 let pr = f.parse;
                 match guarded(|| pr(&out, &op.p)) {
                     Ok(Ok(back)) => {
@@ -189,14 +194,14 @@ fn run_floats<T: Flt>(rep: &Report, cli: &Cli, replay: Option<(&str, usize, u64)
                         fam.nontrivial += 1;
                         let same = if is_nan { fm.is_nan(bb) } else { bb == bits };
                         if (exact_required || is_nan) && !same {
-                            rep.violation(key, format!("C08 [{}] {} : {:#x} written as {:?} parses back as {:#x}", f.name, op.name, bits, show_bytes(&out), bb));
+                            rep.violation(key.clone(), format!("C08 [{}] {} : {:#x} written as {:?} parses back as {:#x}", f.name, op.name, bits, show_bytes(&out), bb));
                         }
                     }
                     Ok(Err(e)) => {
-                        rep.violation(key, format!("C08 [{}] {} : {:#x} written as {:?} is rejected by the parser of the same format: {:?}", f.name, op.name, bits, show_bytes(&out), e));
+                        rep.violation(key.clone(), format!("C08 [{}] {} : {:#x} written as {:?} is rejected by the parser of the same format: {:?}", f.name, op.name, bits, show_bytes(&out), e));
                     }
                     Err(p) => {
-                        rep.violation(key, format!("C08 [{}] {} : parser panicked on {:?}: {}", f.name, op.name, show_bytes(&out), p));
+                        rep.violation(key.clone(), format!("C08 [{}] {} : parser panicked on {:?}: {}", f.name, op.name, show_bytes(&out), p));
                     }
                 }
             }
@@ -252,8 +257,9 @@ fn main() {
     if let Some(key) = &cli.replay {
         let p: Vec<&str> = key.split('|').collect();
         if p[1] != "int" {
-            let oi: usize = p[2].parse().unwrap();
-            let bits = u64::from_str_radix(p[3].trim_start_matches("0x"), 16).unwrap();
+            let (oi_s, bits_s) = if p[2] == "numeral-special" { p[3].split_once(':').unwrap() } else { (p[2], p[3]) };
+            let oi: usize = oi_s.parse().unwrap();
+            let bits = u64::from_str_radix(bits_s.trim_start_matches("0x"), 16).unwrap();
             if p[0] == "f64" {
                 run_floats::<f64>(&rep, &cli, Some((p[1], oi, bits)));
             } else {
